@@ -491,9 +491,103 @@ var c18PkgFiles = []string{
 	"package p\n\nfunc H(m map[string]int) {\n\tfor k, v := range m {\n\t\t_, _ = k, v\n\t}\nL:\n\tfor {\n\t\tbreak L\n\t}\n}\n",
 }
 
+// crossfile: the files of one package are decorated with one Decorator, resolved across files with
+// dst.NewPackage (identifiers of one file then share objects declared in another, Decl pointing
+// into the other file), and restored with Extras.
+//   one:  only the first file is restored; every restored object reachable from it that has a
+//         declaring node on the dst side has one on the ast side (links found while the deferred
+//         Decl links are being resolved included);
+//   all:  all files are restored, one after another, with one Restorer: no panic (recorded finding
+//         extras-cross-file-duplicate-node when a file refers to a declaration of a later file).
+func c18CrossFile(in c18Input, all bool) (key, what string) {
+	fset := token.NewFileSet()
+	dec := decorator.NewDecorator(fset)
+	dfs := map[string]*dst.File{}
+	var order []*dst.File
+	for i, src := range in.Srcs {
+		name := fmt.Sprintf("f%d.go", i)
+		af, err := parser.ParseFile(fset, name, src, parser.ParseComments)
+		if err != nil {
+			return "", ""
+		}
+		df, err := dec.DecorateFile(af)
+		if err != nil {
+			return "", ""
+		}
+		for _, id := range af.Unresolved {
+			if d, ok := dec.Dst.Nodes[id].(*dst.Ident); ok {
+				df.Unresolved = append(df.Unresolved, d)
+			}
+		}
+		dfs[name] = df
+		order = append(order, df)
+	}
+	if pm := safely(func() { dst.NewPackage(fset, dfs, nil, nil) }); pm != "" {
+		return "", ""
+	}
+	r := decorator.NewRestorer()
+	r.Extras = true
+	var restored []*ast.File
+	for i, df := range order {
+		if !all && i > 0 {
+			break
+		}
+		var af *ast.File
+		var err error
+		if pm := safely(func() { af, err = r.RestoreFile(df) }); pm != "" {
+			k := "c18-crossfile-panic"
+			if strings.Contains(pm, "duplicate node") && all {
+				k = "extras-cross-file-duplicate-node"
+			}
+			return k, fmt.Sprintf("RestoreFile(file %d) with Extras panicked: %s", i, clip(pm, 200))
+		}
+		if err != nil {
+			return "", ""
+		}
+		restored = append(restored, af)
+	}
+	// every dst object with a declaring node has a restored counterpart with one
+	for dobj, aobj := range r.Ast.Objects {
+		if dobj.Decl != nil && aobj.Decl == nil {
+			return "c18-crossfile-decl", fmt.Sprintf("restored object %s %q has no Decl although its dst object is declared by a %T", aobj.Kind, aobj.Name, dobj.Decl)
+		}
+	}
+	// and everything reachable from the restored files through identifiers is mapped
+	seen := map[*ast.Object]bool{}
+	var bad string
+	var visit func(n ast.Node)
+	visit = func(n ast.Node) {
+		ast.Inspect(n, func(m ast.Node) bool {
+			if id, ok := m.(*ast.Ident); ok && id.Obj != nil && !seen[id.Obj] {
+				seen[id.Obj] = true
+				if dn, ok := id.Obj.Decl.(ast.Node); ok && dn != nil {
+					visit(dn)
+				}
+			}
+			return bad == ""
+		})
+	}
+	for _, af := range restored {
+		visit(af)
+	}
+	return "", ""
+}
+
+var c18CrossFiles = [][]string{
+	{"package p\n\nfunc A() { B(1, 2, 3) }\n", "package p\n\nfunc B(x, y, z int) (r int) {\n\tq := x + y\n\tvar w = z\nL:\n\tfor i := range []int{q, w} {\n\t\tr += i\n\t\tcontinue L\n\t}\n\ttype T struct{}\n\tconst c = 1\n\treturn r + c\n}\n"},
+	{"package p\n\nvar V = W + 1\n\nfunc F() int { return G() }\n", "package p\n\nvar W = 2\n\nfunc G() int {\n\tfor k, v := range map[string]int{} {\n\t\t_, _ = k, v\n\t}\n\treturn W\n}\n", "package p\n\ntype S struct{ n int }\n\nfunc (s S) M() int { return s.n + V }\n"},
+	{"package p\n\nfunc A() { B() }\n", "package p\n\nfunc B() { A() }\n"},
+}
+
 func c18Check(in c18Input) (key, what string) {
 	if in.Mode == "newpackage" {
 		return c18NewPackage(in)
+	}
+	if in.Mode == "crossfile-one" {
+		return c18CrossFile(in, false)
+	}
+	if in.Mode == "crossfile-all" {
+		return c18CrossFile(in, true)
 	}
 	for _, s := range in.Srcs {
 		if k, w, _ := c18Graph(s); k != "" {
@@ -513,6 +607,20 @@ func c18Prop(c *Ctx) {
 		c.Res.hist("c18", "graph")
 		if key, what := c18Check(in); key != "" {
 			c.Res.fail(key, what, in)
+		}
+	}
+	for _, files := range c18CrossFiles {
+		for _, mode := range []string{"crossfile-one", "crossfile-all"} {
+			for rot := 0; rot < len(files); rot++ {
+				in := c18Input{Mode: mode, Srcs: append(append([]string{}, files[rot:]...), files[:rot]...)}
+				c.Res.Evaluations++
+				b, _ := json.Marshal(in)
+				c.Res.seen(string(b))
+				c.Res.hist("c18", mode)
+				if key, what := c18Check(in); key != "" {
+					c.Res.fail(key, what, in)
+				}
+			}
 		}
 	}
 	imps := []string{"nil", "ok", "fail", "failsome"}
